@@ -87,8 +87,9 @@ def hitMatches (q : Text) (h : Hit) : Bool :=
 
 /-- `sort::compare_hits` as "h1 is not after h2": first differing component decides, larger first -/
 def scoresLe : List Int → List Int → Bool
+  | [], _ => true
+  | _ :: _, [] => false
   | a :: as, b :: bs => if a = b then scoresLe as bs else decide (b < a)
-  | _, _ => true
 
 def hitLe (h1 h2 : Hit) : Bool := scoresLe h1.scores h2.scores
 
@@ -175,12 +176,19 @@ def Store.topIxsM (S : Sorter) (K : Consts) (st : Store) : List Nat × Store :=
 def Store.candidatesM (S : Sorter) (K : Consts) (st : Store) (q : Text) : List Nat × Store :=
   if q.words.length > 0 then (st.index.prepare S K q st.limit, st) else st.topIxsM S K
 
-/-- `Store::search`: `(results, store after the call)`; `self.records[ix]` is a trap site (`searchSafe`) -/
+/-- the scored hits that pass the filter, in candidate order (input of the bounded selection);
+    `self.records[ix]` is a trap site -/
+def Store.hitsOf (K : Consts) (order : List ScoreType) (st : Store) (q : Text) (ixs : List Nat) : List Hit :=
+  ((ixs.filterMap (fun ix => st.records[ix]?)).map (scoreHit K order q)).filter (hitMatches q)
+
+def Store.render (st : Store) (h : Hit) : Result :=
+  { id := h.id, title := highlight h st.dividers.1 st.dividers.2 }
+
+/-- `Store::search`: `(results, store after the call)` -/
 def Store.searchM (S : Sorter) (K : Consts) (order : List ScoreType) (st : Store) (q : Text) : List Result × Store :=
   let (ixs, st') := st.candidatesM S K q
-  let hits := ((ixs.filterMap (fun ix => st.records[ix]?)).map (scoreHit K order q)).filter (hitMatches q)
-  let top := limitSort (S.sort hitLe) K.sortFactor st.limit hits
-  (top.map (fun h => { id := h.id, title := highlight h st.dividers.1 st.dividers.2 }), st')
+  let top := limitSort (S.sort hitLe) K.sortFactor st.limit (st.hitsOf K order q ixs)
+  (top.map st.render, st')
 
 def Store.search (S : Sorter) (K : Consts) (order : List ScoreType) (st : Store) (q : Text) : List Result :=
   (st.searchM S K order q).1
